@@ -15,6 +15,7 @@ from .units import m_replay
 from .units import f_replay
 from .units import s_replay
 from .units.f import UnitF
+from .units.x import UnitX
 from .units import r_replay
 import functools as _ft
 
@@ -374,7 +375,7 @@ PROPS['C07']['level_note'] += (' L3: contracts of the helper runtime are importe
                                'Known finding: own facets of a simple type derived from a named simple type are not enforced.')
 
 PROPS['C02'] = {
-    'units': [UnitF], 'level': 'translation_validation', 'design_ref': 'DESIGN.md 4.2', 'extra': l3_extra, 'witness': l3_witness,
+    'units': [UnitF, UnitX], 'level': 'translation_validation', 'design_ref': 'DESIGN.md 4.2', 'extra': l3_extra, 'witness': l3_witness,
     'scope': 'shape of the emitted structs per corpus program: one struct per named complex/simple type and anonymous-typed global element, in the '
              'module of its namespace, with exactly the declared members (inherited first), names in snake_case (keywords respelled), wrapped '
              'T / Option<T> / Vec<T> by occurrence, typed by the reference mapping of DESIGN 2.2',
@@ -384,7 +385,7 @@ PROPS['C02'] = {
                   'A type error inside a shape contract is the disagreement. Per program, not for all schemas.',
     'level_note': 'The deciding step is rustc\'s type checker inside Verus, not an SMT obligation (reported as translation_validation, never as proof). '
                   'Trusted: the independent reader (vp/l3/model.py) and its PascalCase/snake_case rules, valid for the corpus vocabulary. '
-                  'Additionally the builtin table of field.rs::as_rust_type is PROVED for all strings (unit F, 27 rows + the named-type arm). Not covered: schemas outside the corpus, derive-generated (de)serialisers, the occurrence-flag and flattening contracts of DESIGN 4.2 on Field::try_from_node / complex.rs (roxmltree-driven; not built).',
+                  'Additionally the builtin table of field.rs::as_rust_type is PROVED for all strings (unit F, 27 rows + the named-type arm). The FLATTENING of content models is PROVED for all document trees (unit X: import_sequence_node_fields / import_choice_fields / read_sequence_node of complex.rs against a contract-only roxmltree stand-in: one field per member, in document order, nested groups flattened in place, nothing dropped or added; termination by tree height). Not covered: schemas outside the corpus, derive-generated (de)serialisers, the occurrence-flag contract of DESIGN 4.2 on Field::try_from_node (only named by the uninterpreted relation is_field_of).',
     'technique': 'schema-derived ghost shape contracts type-checked by Verus against the code emitted by the current generator',
     'assumptions': ['independent schema reader implements DESIGN 2.1/2.2 faithfully', 'corpus names are in the vocabulary whose case conversion is unambiguous'],
 }
@@ -508,9 +509,9 @@ def c13_witness(pid, fails, repo):
 
 
 PROPS['C13'] = {
-    'units': [UnitR, UnitM, UnitS, UnitW, UnitK, UnitD], 'level': 'proof', 'design_ref': 'DESIGN.md 4.13', 'extra': c13_extra, 'witness': c13_witness,
+    'units': [UnitR, UnitM, UnitS, UnitW, UnitK, UnitD, UnitX], 'level': 'proof', 'design_ref': 'DESIGN.md 4.13', 'extra': c13_extra, 'witness': c13_witness,
     'scope': 'SCOPED: panic freedom (no unwrap/expect/assert/overflow/index failure) and termination (decreases on every loop) of the functions '
-             'under contract in units R, M, S, W, K, D only (helpers_content.rs runtime, all writer functions, rename_keywords, the namespace table). '
+             'under contract in units R, M, S, W, K, D, X only (helpers_content.rs runtime, all writer functions, rename_keywords, the namespace table, the flattening recursion of complex.rs). '
              'The roxmltree-driven reading code is outside Verus\' reach and gets a BOUNDED mutant run instead (labelled, not counted as proved).',
     'level_text': 'For every exec function Verus verifies it also discharges the implicit obligations: preconditions of unwrap/expect/index, arithmetic '
                   'overflow, reachability of assert!/assert_ne! (core::panicking::assert_failed requires false) and termination of loops. This check '
@@ -524,7 +525,7 @@ PROPS['C13'] = {
 }
 
 PROPS['C08'] = {
-    'units': [], 'level': 'translation_validation', 'design_ref': 'DESIGN.md 4.8', 'extra': l3_extra, 'witness': l3_witness,
+    'units': [UnitX], 'level': 'translation_validation', 'design_ref': 'DESIGN.md 4.8', 'extra': l3_extra, 'witness': l3_witness,
     'scope': 'per corpus program with complex types defined by extension (chains of depth 1..4, fan-out, bases declared before / after / in another '
              'file, same or other namespace, own content empty / sequence / choice / attributes): the emitted struct of the derived type has the base '
              'struct\'s members first, in order, then its own, and each element member keeps the prefix of the namespace that declared it',
@@ -532,9 +533,11 @@ PROPS['C08'] = {
                   'and emits a shape contract (exhaustive destructuring pattern in that order + one typed projection per member); Verus\' front end '
                   'type-checks it against the struct the current generator emits. The namespace clause is an attribute-text comparison '
                   '(#[yaserde(prefix=..)] of each inherited/own element vs. the prefix of its declaring namespace). Per program, not for all schemas.',
-    'level_note': 'The L2 contract planned in DESIGN 4.8 on import_extension_fields itself (unit X) was NOT built: the function iterates roxmltree nodes '
-                  'and recurses into the reader, which is outside Verus\' reach here; member ORDER is checked through the destructuring pattern only as far '
-                  'as names and types distinguish members. Trusted: the independent reader.',
+    'level_note': 'In addition (unit X, Verus/Z3, for ALL document trees): import_extension_fields and read_complex_content_node of complex.rs are PROVED to yield the '
+                  'fields of the base that the document\'s type lookup returns for the QName in base= (local name + namespace bound to its prefix), in the base\'s order, '
+                  'followed by one field per member the extension declares, in order. Assumed there: the roxmltree stand-in, find_type_by_xml_name is a function of '
+                  'its arguments (WHAT it finds is C09), Field::try_from_node only named. ComplexProps::try_from_node (the dispatch on complexContent / sequence / attribute) '
+                  'is not under contract. Member ORDER at L3 is checked through the destructuring pattern only as far as names and types distinguish members. Trusted: the independent reader.',
     'technique': 'schema-derived ghost shape contracts (base members first) type-checked by Verus against the emitted structs; attribute-text comparison for namespaces',
     'assumptions': ['independent schema reader implements XSD extension semantics (base content, then own content, then attributes in declaration order of each level)'],
 }
